@@ -6,7 +6,9 @@ SIMCTL=$1; TIER=$2
 OUT=${VERIF_OUT:-$ROOT/out}; EVD=${VERIF_EVIDENCE_DIR:-$ROOT/evidence}
 "$SIMCTL" run C17 "$TIER"; C1=$?
 C2=0
-if [ "${VERIF_NO_MIRI:-0}" != 1 ]; then
+if [ $C1 -eq 1 ]; then
+  echo "mirisim: skipped (threadsim already reported a violation)"
+elif [ "${VERIF_NO_MIRI:-0}" != 1 ]; then
   "$ROOT/miri/run.sh" "$TIER"; C2=$?
   python3 - "$EVD/C17.json" "$OUT/miri-summary.json" <<'PY'
 import json, sys
